@@ -97,7 +97,7 @@ func Properties() map[string]*PropertySpec {
 			Thorough: []string{"VOTE-GRANT", "TERM-VOTE"},
 			Decided: "every quorum counter (commit, votes, leadership confirmation) counts voters of the configuration in force at the moment of counting; membership changes are appended only by a leader that committed this term with no pending change, and the appended configuration becomes the one in force; " +
 				"truncation falls back to the committed configuration; restore adopts configuration entries only; only voters campaign and are asked for votes",
-			NotDecided: "safety of single-server changes as a protocol; content of configuration futures; two known findings (D6 RemoveServer not pending, D7 follower adopts on apply) are reported as KNOWN-FINDING",
+			NotDecided: "safety of single-server changes as a protocol; content of configuration futures; one known finding (D7: followers adopt a configuration when it is applied, the leader when it is appended) is reported as KNOWN-FINDING",
 		},
 		{
 			ID:         "C16",
